@@ -3,7 +3,7 @@ import numpy as np
 from hypothesis import strategies as st
 
 import pytenet as ptn
-from pytenet.operation import contraction_operator_step_left
+from pytenet.operation import contraction_operator_step_left, contraction_step_left, contraction_step_right
 from core import Part, require
 from gen_qn import (matrix_element_triple, sector_family, build_mps, build_mpo, mpo_tensors, mps_tensors,
                     hermitian_mpo_from, FLOAT_STYLES)
@@ -90,6 +90,23 @@ def check_vdot(case, rec):
     got2 = ptn.vdot(b, a)
     require(abs(complex(got2) - np.conj(complex(ref))) <= TOL * max(mag, 1e-300), 'vdot(psi, chi) is not the conjugate of vdot(chi, psi)')
     rec.metric('vdot_err', err / max(mag, 1e-300))
+    # the left and right transfer steps (public helpers; vdot itself sweeps from the right only): at every cut the left block
+    # contracted with the right block is the same inner product
+    if a.A[0].shape[1] == b.A[0].shape[1] and a.A[-1].shape[2] == b.A[-1].shape[2]:
+        n = len(a.A)
+        Lb = [np.identity(a.A[0].shape[1], dtype=complex)]
+        for i in range(n):
+            Lb.append(contraction_step_left(b.A[i], a.A[i], Lb[-1]))
+        Rb = [np.identity(a.A[-1].shape[2], dtype=complex)]
+        for i in reversed(range(n)):
+            Rb.insert(0, contraction_step_right(b.A[i], a.A[i], Rb[0]))
+        for i in range(n + 1):
+            require(Lb[i].shape == (b.A[i].shape[1] if i < n else b.A[-1].shape[2], a.A[i].shape[1] if i < n else a.A[-1].shape[2])
+                    and Rb[i].shape == Lb[i].shape, 'transfer block has the wrong shape (ket bond x bra bond)', cut=i, left=Lb[i].shape, right=Rb[i].shape)
+            val = complex(np.sum(Lb[i] * Rb[i]))
+            require(abs(val - complex(ref)) <= TOL * max(mag, 1e-300), 'left block . right block differs from the inner product', cut=i,
+                    got=val, ref=complex(ref), magnitude=mag)
+        rec.label('transfer_blocks')
     rec.label('L=%d' % len(a.A))
     if abs(ref.imag) > 1e-8 * mag:
         rec.label('complex_value')
